@@ -1197,6 +1197,20 @@ impl DnsRegistry {
                         answer.get_type(),
                         answer.get_name(),
                     );
+
+                    // The established value is the wanted one again: a probe still
+                    // running for another value of this record, started by an earlier
+                    // registration, is obsolete. (Address records are left alone, a
+                    // name can have several of them.)
+                    if !matches!(answer.get_type(), RRType::A | RRType::AAAA) {
+                        let name = answer.get_name();
+                        if let Some(probe) = self.probing.get_mut(name) {
+                            probe.records.retain(|r| r.get_type() != answer.get_type());
+                            if probe.records.is_empty() {
+                                self.probing.remove(name);
+                            }
+                        }
+                    }
                     return true;
                 }
             }
